@@ -2,7 +2,7 @@
 
 Mode P.  The product  {functional map, nn.Module} x map x dim x rank x field x method/option x backend  is enumerated completely up
 to the dimension bound; in every configuration the differential is taken at every point of a small finite atom list
-(one seed-independent chirp point, G generic atoms x scales {1, 0.3}):
+(one seed-independent chirp point, G generic atoms bounded away from the chart singularities, G normal draws):
 
   torch backend : J = torch.autograd.functional.jacobian of the real view of the output (float64)
   numpy backend : J = central finite differences (two step sizes, Richardson error estimate) - the numpy branches cannot be
@@ -28,7 +28,7 @@ RULE = ('state = (map or nn.Module class, dim, rank, field, method/options, back
 ASSUMPTIONS = [
     'torch.autograd.functional.jacobian (float64) is the differential of the torch branch; the hand-written backward of PSDMatrixSqrtm is trusted here (it is the subject of C04); its agreement with the finite-difference Jacobian of the numpy branch is measured and counted (autograd_vs_numpy_fd_mismatch), not used as a verdict',
     'numerical rank: singular values above hi=1e4*lo count, below lo=1e3*eps*kappa*sigma_1 are zero, a singular value inside (lo,hi] makes the atom undecided (counted, never a violation); kappa is the independent conditioning estimate of the configuration (C01 table)',
-    'generic point statement only: the rank is decided at the listed atoms (one chirp vector and G normal draws at scales 1 and 0.3 per configuration); nothing is claimed on the measure-zero set where a chart degenerates',
+    'generic point statement only: the rank is decided at the listed atoms (see atom_list: one deterministic chirp vector, G drawn vectors with |theta_i| in [0.4,1.2], G normal draws); nothing is claimed on the measure-zero set where a chart degenerates',
     'so-exp / so-cayley Stiefel charts parametrise "the first r columns of SO(d)/SU(d)": dimension min(2dr-r^2, d^2-1) in the complex case (documented construction)',
     'phase-free complex Euler chart parametrises the Stiefel manifold modulo column phases: dimension 2dr-r^2-r; its composition with the Kraus->Choi map has no manifold of its own and is not checked',
 ]
@@ -36,7 +36,8 @@ ASSUMPTIONS = [
 EPS = np.finfo(np.float64).eps
 C = 1e3          # safety constant of DESIGN 3.2
 GAP = 1e4        # dead band hi/lo (DESIGN C02: gap >= 1e4)
-KAPPA_CAP = 1e6  # hi = C*eps*kappa*GAP must stay below 1e-3*sigma_1: kappa <= 1e-3/(1e3*2.2e-16*1e4) = 4.5e5 ~ 1e6/2
+KAPPA_CAP = 4e5  # hi = C*eps*kappa*GAP must stay below 1e-3*sigma_1: kappa <= 1e-3/(1e3*2.2e-16*1e4) = 4.5e5
+FD_KAPPA_CAP = 1e4  # finite differences resolve ~1e-7*sigma_1 only: atoms with an (independently) ill-conditioned frame are skipped
 FD_H = 1e-4      # finite-difference step (theta is O(1))
 FD_GUARD = 1e2   # finite differences: non-zero singular values must exceed FD_GUARD * error bound
 
@@ -68,6 +69,11 @@ def manifold_dim(name, c):
         m = c['method']
         if m == 'euler' and (not real) and (not c.get('phase', False)):
             return st - r                          # modulo the r column phases
+        if m == 'choleskyL' and not real:
+            # frame [unit lower-triangular ; free block] orthonormalised by the inverse Cholesky factor (upper triangular,
+            # positive diagonal): the diagonal of the top block stays real positive, i.e. one phase per column is fixed.
+            # Documented as the "minimum parameters" chart: Stiefel modulo column phases, like the phase-free Euler chart.
+            return st - r
         if m in ('so-exp', 'so-cayley') and not real:
             return min(st, d * d - 1)              # first r columns of SU(d): the global phase is lost when r == d
         return st
@@ -90,15 +96,29 @@ def is_minimal_chart(name, c):
 
 
 # ------------------------------------------------------------------------------------------------ atoms
-def atom_list(n, env, G, *tag):
-    """finite list of parameter points in R^n: [(label, theta)]. Only the 'g*' atoms depend on VERIF_SEED."""
+def atom_list(n, env, G, wide, *tag):
+    """finite list of parameter points in R^n: [(label, theta)]. Only the 'g*' / 'n*' atoms depend on VERIF_SEED.
+
+    family A ("away"): |theta_i| in [0.4, 1.2] with a sign - generic, and bounded away from theta_i = 0 where every angle
+        chart (spherical coordinates, Euler-Hurwitz) and the squared-sphere simplex chart have their coordinate singularity;
+        one deterministic member (quadratic chirp) + G drawn ones. Used for both backends.
+    family N (wide=True, autograd only): N(0,1) draws (the quantifier of the property). They may come close to a coordinate
+        singularity, which autograd resolves down to ~1e-9*sigma_1 but finite differences (~1e-7) do not.
+    The second scale 0.3*N(0,1) planned in DESIGN C02 is NOT used: it concentrates the angles of the coordinate / Euler charts at
+    their singularity theta=0, where sigma_min ~ prod sin(theta_i) (squared for Choi outputs) falls below the rounding floor and a
+    rank verdict is unsound (false alarm observed on the repaired tree, see rank_autograd); family A replaces it.
+    """
     k = np.arange(n)
-    atoms = [('chirp', 0.9 * np.sin(1.0 + 1.7 * k + 0.3 * k * k) + 0.05 * np.cos(2.0 + 0.9 * k))]
+    # quadratic chirps: no linear (Kronecker) structure, so that frames / ensembles reshaped from theta are not of low rank
+    frac = np.abs(np.sin(1.0 + 1.7 * k + 0.3 * k * k))
+    sign = np.where(np.sin(2.3 + 1.1 * k + 0.7 * k * k) >= 0, 1.0, -1.0)
+    atoms = [('det', sign * (0.4 + 0.8 * frac))]
     rng = env.rng('C02', *tag)
     for g in range(G):
-        v = rng.normal(size=n)
-        atoms.append(('g%d' % g, v))
-        atoms.append(('g%d*0.3' % g, 0.3 * v))
+        atoms.append(('g%d' % g, rng.choice([-1.0, 1.0], size=n) * (0.4 + 0.8 * rng.random(n))))
+    if wide:
+        for g in range(G):
+            atoms.append(('n%d' % g, rng.normal(size=n)))
     return atoms
 
 
@@ -116,14 +136,14 @@ def rank_autograd(J, kappa, fscale):
     Rounding model (DESIGN 3.2): every entry of J carries an error <= c*eps*kappa*|J|, so singular values that are exactly
     zero in exact arithmetic are observed below lo = C*eps*kappa*sigma_1 (C=1e3). A singular value is counted as non-zero only
     above hi = GAP*lo (GAP=1e4, the gap requirement of the design); one inside (lo,hi] cannot be attributed -> undecided.
-    A Jacobian whose largest singular value is below C*eps*max(1,|f|) is rounding noise of a constant map: rank 0.
+    A Jacobian whose largest singular value is below C*eps*kappa*max(1,|f|) is rounding noise of a constant map: rank 0.
     """
     if J.size == 0:
         return 0, np.zeros(0), 'empty'
     s = np.linalg.svd(J, compute_uv=False)
     if not np.isfinite(s).all():
         return None, s, 'not_finite'
-    if s[0] <= C * EPS * max(1.0, fscale):
+    if s[0] <= C * EPS * kappa * max(1.0, fscale):
         return 0, s, 'zero'
     lo = C * EPS * kappa * s[0]
     hi = GAP * lo
@@ -131,7 +151,14 @@ def rank_autograd(J, kappa, fscale):
         return None, s, 'ill_conditioned'
     if ((s > lo) & (s <= hi)).any():
         return None, s, 'dead_band'
-    return int((s > hi).sum()), s, 'ok'
+    r = int((s > hi).sum())
+    # relative gap criterion *below* the threshold as well: genuine zeros are rounding noise and lie within a factor 1e2 of each
+    # other, whereas a true tiny singular value (near a coordinate singularity of an angle chart) sticks out of the noise by
+    # orders of magnitude. Observed: QuantumChannel(euler, choi) at 0.3*N(0,1): ..., 3.5e-7, 6.6e-13 | 1.6e-16, 9.5e-17, ...
+    # -> the 6.6e-13 is a direction of the manifold, not a zero: the atom is undecided, not rank deficient.
+    if r + 1 < len(s) and s[r] > 1e2 * max(s[r + 1], EPS * s[0]):
+        return None, s, 'isolated_small_singular_value'
+    return r, s, 'ok'
 
 
 def fd_jacobian(fun, th):
@@ -209,16 +236,26 @@ def build_cases(tier, seed):
             continue
         if c['cls'] == 'SeparableDensityMatrix':
             continue  # see NOT COVERED in the module docstring of run_module
-        if c['cls'] == 'QuantumChannel' and c['return_kind'] == 'choi' and c['method'] == 'euler' and not c['phase']:
-            continue  # Stiefel modulo column phases does not descend to Choi operators: no manifold to compare with
-        if tier == 'quick' and c['batch'] is not None and c['dim'] > 2 and c['cls'] != 'QuantumChannel':
-            continue  # quick: batch 3 at the smallest dimension only (thorough: everywhere)
+        if c['cls'] == 'QuantumChannel':
+            cr = c['dim'] * c['dim_out'] if c['choi_rank'] is None else c['choi_rank']
+            if cr * c['dim_out'] > (6 if tier == 'quick' else 9):
+                continue  # the underlying Stiefel(cr*dim_out, dim_in) chart is kept inside the dimension bound of the functional maps (+1)
+            if c['return_kind'] == 'choi' and ((c['method'] == 'euler' and not c['phase']) or c['method'] == 'choleskyL'):
+                continue  # Stiefel modulo column phases does not descend to Choi operators: no manifold to compare with
+        if tier == 'quick' and c['batch'] is not None and (c['dim'] > 2 or (c['cls'] == 'QuantumChannel' and cr * c['dim_out'] > 4)):
+            continue  # quick: batch 3 at the smallest dimensions only (thorough: everywhere)
         cases.append(dict(c))
     cases.sort(key=lambda c: (c['dim'], c.get('rank') or 0, c['kind']))
     G = 2 if tier == 'quick' else 6
-    info = {'dims_functional': dims, 'dims_modules': mdims, 'generic_atoms_per_config': G, 'atom_scales': [1.0, 0.3],
-            'atoms_per_config': 1 + 2 * G, 'backends': ['torch autograd', 'numpy central differences'],
-            'dead_band': {'lo': 'C*eps*kappa*sigma_1', 'hi': '1e4*lo'}, 'exhaustive': True,
+    info = {'dims_functional': dims, 'dims_modules': mdims, 'sym_to_psd_extra_dim': 6, 'generic_atoms_per_family': G,
+            'atom_families': {'away': '1 deterministic + G drawn, |theta_i| in [0.4,1.2] (both backends)',
+                              'normal': 'G x N(0,1) (autograd only)', 'init': "the module's own initial theta (modules only)"},
+            'atoms_per_config': {'numpy': 1 + G, 'torch': 1 + 2 * G, 'module': 2 + 2 * G},
+            'backends': ['torch autograd', 'numpy central differences (h=1e-4 and 2e-4)'],
+            'module_batch_sizes': [None, 3], 'quantum_channel_stiefel_dim_bound': 6 if tier == 'quick' else 9,
+            'dead_band': {'autograd': 'zero below lo=1e3*eps*kappa*sigma_1, non-zero above 1e4*lo',
+                          'finite_differences': 'zero below tau=sqrt(mn)*(2|J_2h-J_h|+1e3*eps*|f|/h), non-zero above 1e2*tau'},
+            'exhaustive': True,
             'note': 'the configuration product up to the dimension bound x the atom list is enumerated completely; '
                     'the verdict at each configuration is for the listed atoms (generic-point statement)'}
     return cases, info
@@ -243,7 +280,7 @@ def run_func(case, out, env):
     cfg = '%s [%s backend=%s]' % (name, ck, c['backend'])
     G = 2 if env.tier == 'quick' else 6
     # the atoms depend on (map, options, dim, rank, field) but NOT on the backend: both backends see the same points
-    atoms = atom_list(n, env, G, name, ck)
+    atoms = atom_list(n, env, G, c['backend'] == 'torch', name, ck)
 
     # parameter count versus dimension (table is independent of the count formula)
     if n < expect:
@@ -257,7 +294,7 @@ def run_func(case, out, env):
     ranks_seen = []
     for label, th in atoms:
         kap = float(spec.kappa(th[None, :], c)[0])
-        if not np.isfinite(kap) or kap > KAPPA_CAP:
+        if not np.isfinite(kap) or kap > (KAPPA_CAP if c['backend'] == 'torch' else FD_KAPPA_CAP):
             out.count('skipped_ill_conditioned')
             continue
         out.state()
@@ -318,9 +355,8 @@ def run_func(case, out, env):
         out.outcome((name, ck, c['backend'], got, np.round(s / max(s[0], 1e-300), 3) if len(s) else s), nontrivial=got > 0)
         verdict(out, site, kk, label, got, expect, s, cfg, config=c, theta=th)
     if not ranks_seen:
-        out.count('configs_without_decided_atom')
+        out.count('no_decided_atom[%s,%s]' % (name, kk))
     out.trace()
-    out.agg = {'cfg': ck, 'map': name, 'backend': c['backend'], 'ranks': ranks_seen, 'expect': expect}
     out.sample = {'config': c, 'parameters': n, 'manifold_dimension': expect, 'ranks_observed': ranks_seen, 'first_atom': atoms[0][1].tolist()}
 
 
@@ -404,7 +440,7 @@ def run_module(case, out, env):
     if mspec is not None and is_minimal_chart(*mspec) and nper != expect:
         fail('chart_not_minimal', 'minimal chart, but the constructor allocates %d parameters per sample for dimension %d' % (nper, expect))
     G = 2 if env.tier == 'quick' else 6
-    atoms = atom_list(nper * nb, env, G, c['cls'], ck)
+    atoms = atom_list(nper * nb, env, G, True, c['cls'], ck)
     atoms = [('init', None)] + atoms
     ranks_seen = []
     for label, th in atoms:
@@ -461,7 +497,7 @@ def run_module(case, out, env):
             if not verdict(out, site, kk, label + ('' if bs is None else '[sample %d]' % i), got, expect, s, cfg, config=c, theta=rows[i]):
                 break
     if not ranks_seen:
-        out.count('configs_without_decided_atom')
+        out.count('no_decided_atom[%s,%s]' % (c['cls'], kk))
     out.trace()
     out.sample = {'config': c, 'parameters_per_sample': nper, 'manifold_dimension': expect, 'ranks_observed': ranks_seen[:8]}
 
